@@ -771,7 +771,7 @@ func TestVerifC46Sequential(t *testing.T) {
 	defer c.Finish()
 	c.Rule("random histories over up to 3 wallets sharing one master derivation key: generate (incl. refused mnemonic request), import of fresh keys / of keys already held / of upcoming and passed members of the derived sequence, delete, export, export MDK, multisig import/delete, Sign*/MultisigSign*, rename, re-open (new handle, new driver instance), restore from the exported MDK, CheckPassword/Init - about half of the password-taking calls with a wrong password (suffix, prefix, blank, bit flip, unrelated); after every call the real wallet is compared with the reference {highest index, key set, multisig set}; at the end every key is exported, two more keys are generated per wallet and a fresh wallet restored from the MDK must regenerate D[1..]; distinct = (wallet count, highest index, key count, deleted/multisig present)")
 	c.Assume("the derived sequence D is taken from a pristine wallet of the same driver created from the same master derivation key (black box); scrypt cost lowered through the driver's own allow_unsafe_scrypt configuration as the upstream e2e fixtures do")
-	ncase := c.N(150, 2500)
+	ncase := c.N(150, 1200)
 	tot := map[string]int{}
 	for i := 0; i < ncase && c.Violations() < 20; i++ {
 		r := c.Rand(46, uint64(i))
